@@ -117,3 +117,43 @@ func utagsCases(o *hx.Out) {
 		utagsCase(o, "random", safeBytes(o.R, o.R.Intn(24)))
 	}
 }
+
+// strings.TrimSpace (what Graph.Execute and Node.next call) on arbitrary bytes against the model's
+// trim_u: Unicode white space in UTF-8, near misses, overlong and truncated sequences, stray bytes.
+func trimCases(o *hx.Out) {
+	pieces := []string{" ", "\t", "\n", "\v", "\f", "\r", "a", "\"",
+		"\u0085", "\u00a0", "\u1680", "\u2000", "\u2001", "\u2005", "\u200a", "\u2028", "\u2029", "\u202f", "\u205f", "\u3000",
+		"\u200b", "\u2027", "\u0084", "\u00a1", "\u180e", "\u2060", "\ufeff", "\u00e9", "\u2002", "\u2009",
+		"\xc0\xa0", "\xe2\x80", "\xc2", "\x85", "\xa0", "\x80", "\xe2", "\xf0\x9f\x9a\x80", "\xe0\x80\xa0", "\xed\xa0\x80", "\xff"}
+	one := func(cat string, s string) {
+		got := strings.TrimSpace(s)
+		o.Case("trimu."+cat, len(s) >= 2, "trimu "+hx.Hex([]byte(s)), "trimu "+hx.Hex([]byte(got)))
+	}
+	one("empty", "")
+	for _, a := range pieces {
+		one("one", a)
+		for _, b := range pieces {
+			one("two", a+b)
+			for _, c := range pieces {
+				one("three", a+b+c)
+			}
+		}
+	}
+	for i := 0; i < o.N(6000, 10); i++ {
+		var sb strings.Builder
+		for k := 1 + o.R.Intn(9); k > 0; k-- {
+			sb.WriteString(pieces[o.R.Intn(len(pieces))])
+		}
+		one("many", sb.String())
+	}
+	for i := 0; i < o.N(3000, 10); i++ {
+		b := o.R.Bytes(o.R.Intn(10))
+		for k := range b {
+			switch o.R.Intn(4) {
+			case 0:
+				b[k] = []byte{0x20, 0x09, 0xc2, 0x85, 0xa0, 0xe2, 0x80, 0x81, 0xe1, 0x9a, 0xe3, 0xa8, 0xaf, 0x9f}[o.R.Intn(14)]
+			}
+		}
+		one("bytes", string(b))
+	}
+}
